@@ -109,7 +109,13 @@ func init() {
 			panic(abort{st: StKnown, id: id, msg: concStr(a[1], "verifKnownHit")})
 		},
 		"verifNote": func(fr *Frame, a []Value) Value {
-			fr.it.path.notes[concStr(a[0], "verifNote")] = toString(a[1])
+			v := toString(a[1])
+			if itf, ok := a[1].(Iface); ok && itf.T != nil {
+				if m := fr.it.errorString(itf); m != "" {
+					v = m
+				}
+			}
+			fr.it.path.notes[concStr(a[0], "verifNote")] = v
 			return nil
 		},
 		"verifDir": func(fr *Frame, a []Value) Value { return "/d/" + concStr(a[0], "verifDir") },
